@@ -56,6 +56,35 @@ FORBIDDEN = re.compile(
 _setup_alt()
 
 
+def _setup_private_harness():
+    """VERIF_PRIVATE_HARNESS=c05,c07: build a private copy of harness/ in which every other
+    property's runner is a stub — so that somebody else's half-written cNN.rs cannot break this
+    check's build while several people work in /verif at once. Not used in normal runs."""
+    global HARNESS
+    only = os.environ.get("VERIF_PRIVATE_HARNESS")
+    if not only:
+        return
+    keep = set(only.split(","))
+    dst = os.path.join(BUILD, "priv-" + "-".join(sorted(keep)), "harness")
+    os.makedirs(os.path.join(dst, "src"), exist_ok=True)
+    subprocess.run(["rsync", "-a", "--exclude=target/", "--exclude=src/", HARNESS + "/", dst + "/"], check=True)
+    for f in os.listdir(os.path.join(HARNESS, "src")):
+        sp, dp = os.path.join(HARNESS, "src", f), os.path.join(dst, "src", f)
+        if os.path.isdir(sp):
+            subprocess.run(["rsync", "-a", sp + "/", dp + "/"], check=True)
+            continue
+        text = open(sp).read()
+        m = re.match(r"^(c\d\d)\.rs$", f)
+        if m and m.group(1) not in keep:
+            text = "pub fn run(_args: &[String]) { eprintln!(\"stub\"); std::process::exit(2); }\n"
+        if not os.path.exists(dp) or open(dp).read() != text:
+            open(dp, "w").write(text)
+    HARNESS = dst
+
+
+_setup_private_harness()
+
+
 class Infra(Exception):
     """Infrastructure failure: says nothing about the property (exit 2, no VIOLATION line)."""
 
